@@ -5,6 +5,10 @@
 // evmDenomOf, ...). Every `assumed` below summarises store + codec code and is listed in the evidence (trusted_base).
 package keeper
 
+// A Keeper value is wired once while the app is built (NewKeeper, WithCpcKeeper) and never written afterwards: pointers to it
+// (also to a Keeper held as a field of a decorator) are pointers to an immutable object (trusted, T4).
+//@ immutable type Keeper
+
 //@ import sdk "github.com/cosmos/cosmos-sdk/types"
 //@ import sdkmath "cosmossdk.io/math"
 //@ import common "github.com/ethereum/go-ethereum/common"
@@ -14,6 +18,7 @@ package keeper
 
 // params.go GetEip155ChainId: the stored chain id (panics "chain ID not set" when it is 0: never after InitGenesis).
 //@ ghost var evmChainId map[int]int
+//@ layered evmChainId
 //@ func (k Keeper) GetEip155ChainId(ctx sdk.Context) (id evmtypes.Eip155ChainId)
 //@   assumed
 //@   modifies nothing
@@ -29,8 +34,38 @@ package keeper
 
 // statedb.go GetCodeHash: stored code hash; EmptyCodeHash for an existing account without one; zero hash otherwise.
 //@ ghost var evmCodeHash map[int]map[bytes]common.Hash
+//@ layered evmCodeHash
 //@ func (k *Keeper) GetCodeHash(ctx sdk.Context, addr []byte) common.Hash
 //@   assumed
 //@   modifies nothing
 //@   ensures result == evmCodeHash[layer(ctx)][bytes(addr)]
+//@   panics never
+
+// ---------------------------------------------------------------------------------------------
+// keeper.go — SetupExecutionContext (called by the ante decorator 991e on the Ethereum lane; C13, C05)
+// ---------------------------------------------------------------------------------------------
+//@ import ethtypes "github.com/ethereum/go-ethereum/core/types"
+//@ import evertypes "github.com/EscanBE/evermint/v12/types"
+
+// (SetBlockHashForCurrentBlockAndPruneOld: verified over the KV-store model in verif_contracts.go — it writes only the module's
+// own KV store of this layer)
+
+// receiptsDense(l): every Ethereum transaction counted in the current block has a stored (non-empty) receipt — what
+// GetTxReceiptsTransient (block bloom in EndBlock) needs in order not to panic "receipt not found".
+// SetupExecutionContext: the counter goes up by one, and under the NEW index (= old counter) it stores the transaction's whole
+// gas limit as gas used and a placeholder FAILED receipt (status 0, no logs; its cumulative field holds the cumulative LOG count up to and including this index — GetCumulativeLogCountTransient(ctx, false) — not a gas amount: the placeholder only feeds the block bloom) — so a
+// transaction that later dies outside the EVM (block gas exhausted, panic) still counts with its full gas and has a receipt.
+// The returned context differs from ctx only in gas configuration and gas meter (limit = tx gas, nothing consumed): same store
+// layer, same event manager, same header.
+//@ func (k Keeper) SetupExecutionContext(ctx sdk.Context, ethTx *ethtypes.Transaction) (newCtx sdk.Context)
+//@   requires ethTx != nil && txType(ethTx) <= 2 && trCount[layer(ctx)] + 1 < pow2(64)
+//@   modifies trCount[layer(ctx)], trGas[layer(ctx)], trReceipt[layer(ctx)], trHasReceipt[layer(ctx)], kvHas[kvId(layer(ctx), payload(k.storeKey))], kvVal[kvId(layer(ctx), payload(k.storeKey))]
+//@   ensures[C13.setup_same_layer,C05.setup_same_layer] layer(newCtx) == layer(ctx) && hdr(newCtx) == hdr(ctx) && mode(newCtx) == mode(ctx) && newCtx.EventManager() == ctx.EventManager() && newCtx.BlockGasMeter() == ctx.BlockGasMeter()
+//@   ensures[C05.setup_gas_meter] typeof(newCtx.GasMeter()) == type(*evertypes.infiniteGasMeterWithLimit) && fresh(payload(newCtx.GasMeter())) && asptr(payload(newCtx.GasMeter()), type(*evertypes.infiniteGasMeterWithLimit)).limit == txGas(ethTx) && asptr(payload(newCtx.GasMeter()), type(*evertypes.infiniteGasMeterWithLimit)).consumed == 0
+//@   ensures[C13.setup_counter] trCount[layer(ctx)] == old(trCount[layer(ctx)]) + 1
+//@   ensures[C05.setup_gas_assume_failed,C13.setup_gas_assume_failed] trGas[layer(ctx)] == old(trGas[layer(ctx)])[old(trCount[layer(ctx)]) := txGas(ethTx)]
+//@   ensures[C13.setup_has_receipt] trHasReceipt[layer(ctx)] == old(trHasReceipt[layer(ctx)])[old(trCount[layer(ctx)]) := true]
+//@   ensures[C13.setup_other_receipts_kept] trReceipt[layer(ctx)] == old(trReceipt[layer(ctx)])[old(trCount[layer(ctx)]) := trReceipt[layer(ctx)][old(trCount[layer(ctx)])]]
+//@   ensures[C13.setup_placeholder_receipt] exists bloom ethtypes.Bloom, lb ref, lo int :: trReceipt[layer(ctx)][old(trCount[layer(ctx)])] == rlpReceipt(txType(ethTx), 0, (sumTo(trLogs[layer(ctx)], max(1, trCount[layer(ctx)])) - 0) % pow2(64), bloom, lb, lo, 0)
+//@   ensures[C13.receipts_dense] (forall i int :: (0 <= i && i < old(trCount[layer(ctx)])) ==> old(trHasReceipt[layer(ctx)][i])) ==> (forall i int :: (0 <= i && i < trCount[layer(ctx)]) ==> trHasReceipt[layer(ctx)][i])
 //@   panics never
